@@ -7,7 +7,7 @@ Row(c) == LET o == Outcome(c) IN
           [kind |-> c.kind, fw |-> c.fw, file |-> c.file, env |-> c.env, cli |-> c.cli,
            files |-> SetToSeq(c.files), chosen |-> Chosen(c), top |-> Top(c),
            end |-> o.status, eff |-> o.eff]
-Cs == SetToSeq({Row(c) : c \in Cases})
+Cs == SetToSeq({Row(c) : c \in {x \in Cases : x.fb = "no"}})
 CInit == done = FALSE /\ s = S0(CHOOSE c \in Cases : TRUE)
 CNext == done = FALSE /\ done' = ndJsonSerialize(IOEnv.CASES_OUT, Cs) /\ UNCHANGED s
 CSpec == CInit /\ [][CNext]_<<done, s>>
